@@ -1,4 +1,4 @@
-import C2paModel.Lemmas.C07Png
+import C2paModel.Lemmas.C07PngRefine
 /-
 C07 — embedding round trip: write, read, replace and remove manifest stores.
 
@@ -8,10 +8,21 @@ exactly those bytes. Writing again replaces the manifest, so exactly one store i
 the last one written is returned, and removing the manifest yields an asset with no manifest
 that is still accepted by the format handler.
 
-Layer A: the theorems quantify over **every** container (any segment list, any number of
-pre-existing manifest segments, any kinds/bytes), every store byte string and every format
-instance `F` (its wrapping, its insertion policy); the only hypothesis, where needed, is that
-the format's `unwrap` inverts its `wrap` — proved for the byte-exact formats below.
+Structure of the proof.
+
+* **Layer A** (`readA`/`writeA`/`removeA` on segment lists) is the *specification algebra*: it
+  says what "replace the manifest container" means. Its theorems (`read_write`,
+  `write_write`, `remove_clean`, … below) hold for every container, store and format instance
+  and constrain no handler by themselves.
+* **Layer B** (`Png.write`/`Png.remove`/`Png.read`, `Sidecar.*`) are byte-exact models of
+  the handlers; they are the functions compared with the implementation on every run.
+* **Refinement** (`Lemmas/C07PngRefine.lean`): `Png.segs_write`, `Png.segs_remove`,
+  `Png.read_segs`, `Png.ser_segs` are commuting squares between layer B and layer A through
+  the lexer `Png.segs`, for every file the chunk walker accepts with at most one caBX chunk
+  and every store shorter than 2³² bytes. Through them the property clauses become theorems
+  about the byte-exact handler model: `Png.read_write_bytes`, `Png.write_write_bytes`,
+  `Png.remove_accepted`, `Png.remove_write_bytes` below (and the `sidecar_*` theorems).
+  The precondition "at most one caBX chunk" is necessary: `png_two_manifests_diverge`.
 -/
 namespace C2pa.C07
 
@@ -88,7 +99,39 @@ theorem sidecar_read_write (a s : Bytes) (hs : s ≠ []) :
 theorem sidecar_remove_clean (a : Bytes) :
     (Sidecar.remove a).bind Sidecar.read = some .none := rfl
 
-/-! ### PNG (byte-exact layer B): the hypothesis of `read_write` is discharged -/
+/-- The sidecar lexer is lossless. -/
+theorem sidecar_ser_segs (b : Bytes) : ser (Sidecar.segs b) = b := by
+  cases b with
+  | nil => rfl
+  | cons x xs => simp [Sidecar.segs, ser]
+
+/-- Commuting squares for the sidecar handler (any previous content, any non-empty store). -/
+theorem sidecar_segs_write (a s : Bytes) (hs : s ≠ []) :
+    (Sidecar.write a s).map Sidecar.segs = some (writeA Sidecar.fmt (Sidecar.segs a) s) := by
+  have hstrip : strip (Sidecar.segs a) = [] := by
+    cases a with
+    | nil => rfl
+    | cons x xs => rfl
+  have hw : writeA Sidecar.fmt (Sidecar.segs a) s = [mseg Sidecar.fmt s] := by
+    rw [writeA_def, hstrip]; rfl
+  rw [hw]
+  cases s with
+  | nil => exact absurd rfl hs
+  | cons x xs => rfl
+
+theorem sidecar_segs_remove (a : Bytes) :
+    (Sidecar.remove a).map Sidecar.segs = some (removeA (Sidecar.segs a)) := by
+  cases a with
+  | nil => rfl
+  | cons x xs => rfl
+
+theorem sidecar_read_segs (b : Bytes) :
+    Sidecar.read b = some (readA Sidecar.fmt (Sidecar.segs b)) := by
+  cases b with
+  | nil => rfl
+  | cons x xs => rfl
+
+/-! ### PNG, layer A instance: the hypothesis of `read_write` is discharged -/
 
 theorem png_read_write (c : List Seg) (s : Bytes) :
     readA Png.fmt (writeA Png.fmt c s) = .ok s :=
@@ -97,6 +140,172 @@ theorem png_read_write (c : List Seg) (s : Bytes) :
 theorem png_write_write (c : List Seg) (s₁ s₂ : Bytes) :
     readA Png.fmt (writeA Png.fmt (writeA Png.fmt c s₁) s₂) = .ok s₂ :=
   read_write Png.fmt _ s₂ (Png.unwrap_wrap s₂)
+
+/-- PNG's insertion policy looks only at the non-manifest segments. -/
+theorem png_insIdx_writeA (c : List Seg) (s : Bytes) :
+    insIdx Png.fmt (writeA Png.fmt c s) = insIdx Png.fmt c := by
+  unfold insIdx
+  show min (Png.pos (writeA Png.fmt c s)) _ = min (Png.pos c) _
+  unfold Png.pos
+  rw [strip_writeA]
+
+/-! ### PNG, byte-exact layer B: the property clauses about `Png.write` / `Png.read` /
+`Png.remove` (through the commuting squares) -/
+
+namespace Png
+
+/-- The lexer succeeds on every file the walker accepts, with as many manifest segments as
+there are caBX chunks. -/
+theorem segs_of_chunks {b : Bytes} {ps : List Chunk} (h : chunks b = some ps) :
+    ∃ c, segs b = some c ∧ (manifests c).length = (ps.filter (·.name == caBX)).length := by
+  have : (segs b).isSome := (segs_isSome_iff b).2 (by rw [h]; rfl)
+  obtain ⟨c, hc⟩ := Option.isSome_iff_exists.1 this
+  exact ⟨c, hc, manifests_length_segs hc h⟩
+
+/-- **read ∘ write on bytes**: for every file the walker accepts that has an IHDR chunk and
+at most one caBX chunk, and every store shorter than 2³² bytes, `write_cai` succeeds and
+`read_cai` on its output returns exactly the store. -/
+theorem read_write_bytes {b s : Bytes} {ps : List Chunk} (h : chunks b = some ps)
+    (hi : (firstIhdr ps).isSome) (h1 : (ps.filter (·.name == caBX)).length ≤ 1)
+    (hs : s.length < 4294967296) :
+    (write b s).bind read = some (.ok s) := by
+  obtain ⟨c, hc, hm⟩ := segs_of_chunks h
+  obtain ⟨o, hw⟩ := write_isSome s h hi
+  have hso := segs_write hc (by omega) hs hw
+  rw [hw]
+  show read o = _
+  rw [read_segs hso, png_read_write]
+
+/-- **write ∘ write on bytes**: the second write replaces the container: its output is the
+file that writing the second store directly would give, it holds exactly one caBX chunk and
+reads back as the last store written. -/
+theorem write_write_bytes {b s₁ s₂ o₁ o₂ : Bytes} {c : List Seg} (h : segs b = some c)
+    (h1 : (manifests c).length ≤ 1) (hs₁ : s₁.length < 4294967296) (hs₂ : s₂.length < 4294967296)
+    (hw₁ : write b s₁ = some o₁) (hw₂ : write o₁ s₂ = some o₂) :
+    write b s₂ = some o₂ ∧ read o₂ = some (.ok s₂) ∧
+    ∃ ps₂, chunks o₂ = some ps₂ ∧ (ps₂.filter (·.name == caBX)).length = 1 := by
+  have hso₁ := segs_write h h1 hs₁ hw₁
+  have hone : (manifests (writeA fmt c s₁)).length ≤ 1 := by rw [write_exactly_one]; exact Nat.le_refl 1
+  have hso₂ := segs_write hso₁ hone hs₂ hw₂
+  rw [write_write_eq fmt c s₁ s₂ (png_insIdx_writeA c s₁)] at hso₂
+  have ho₂ : o₂ = ser (writeA fmt c s₂) := (ser_segs hso₂).symm
+  refine ⟨?_, ?_, ?_⟩
+  · -- writing s₂ directly succeeds (same IHDR) and gives the same bytes
+    cases hch : chunks b with
+    | none => simp [segs, hch] at h
+    | some ps =>
+      have hi : (firstIhdr ps).isSome := by
+        cases hih : firstIhdr ps with
+        | none => rw [write_eq_none hch hih] at hw₁; cases hw₁
+        | some _ => rfl
+      obtain ⟨o, hw⟩ := write_isSome s₂ hch hi
+      rw [hw, write_refines h h1 hs₂ hw, ho₂]
+  · rw [read_segs hso₂, png_read_write]
+  · have : (chunks o₂).isSome := (segs_isSome_iff o₂).1 (by rw [hso₂]; rfl)
+    obtain ⟨ps₂, hps₂⟩ := Option.isSome_iff_exists.1 this
+    exact ⟨ps₂, hps₂, by rw [← manifests_length_segs hso₂ hps₂, write_exactly_one]⟩
+
+/-- **remove on bytes**: `remove_cai_store_from_stream` never fails on a file the walker
+accepts, its output is again accepted by the walker (the format handler's parser), and — when
+the input had at most one caBX chunk — `read_cai` on it reports "no manifest". -/
+theorem remove_accepted {b : Bytes} {ps : List Chunk} (h : chunks b = some ps) :
+    ∃ o, remove b = some o ∧ (chunks o).isSome ∧
+      ((ps.filter (·.name == caBX)).length ≤ 1 → read o = some .none) := by
+  obtain ⟨rs, tail, hp, rfl⟩ := parsed_of_chunks h
+  obtain ⟨o, rs', hr, hpo, he⟩ := remove_parsed hp
+  refine ⟨o, hr, by rw [chunks_of_parsed hpo]; rfl, ?_⟩
+  intro h1
+  rw [filter_place_length] at h1
+  exact read_parsed_none hpo (eraseFirst_filter he h1).2
+
+/-- `write_cai` succeeds exactly when the file has an IHDR chunk. -/
+theorem write_isSome_iff {b : Bytes} {rs : List RC} {tail : Bytes} (hp : Parsed b rs tail) (s : Bytes) :
+    (write b s).isSome ↔ ∃ r ∈ rs, r.name = IHDR := by
+  have hch := chunks_of_parsed hp
+  rcases split_first IHDR rs with hno | ⟨A, ihr, B, rfl, hA, hihr⟩
+  · rw [write_eq_none hch (find_place_none IHDR rs 8 hno)]
+    constructor
+    · intro h; cases h
+    · rintro ⟨r, hr, hn⟩; exact absurd hn (hno r hr)
+  · have hih := find_place_at IHDR ihr B hihr A 8
+      (fun x hx => hp.stream.all_ok x (by simp [hx])) hA
+    obtain ⟨o, hw⟩ := write_isSome s hch (by rw [show firstIhdr _ = _ from hih]; rfl)
+    rw [hw]
+    exact ⟨fun _ => ⟨ihr, by simp, hihr⟩, fun _ => rfl⟩
+
+/-- **write ∘ remove on bytes**: the IHDR chunk survives removal, and writing into the
+stripped file is writing into the original. -/
+theorem write_after_remove_bytes {b o s : Bytes} {c : List Seg} (h : segs b = some c)
+    (h1 : (manifests c).length ≤ 1) (hs : s.length < 4294967296) (hr : remove b = some o) :
+    write o s = write b s := by
+  obtain ⟨o', hr', hso⟩ := segs_remove h h1
+  rw [hr] at hr'; injection hr' with hr'; subst hr'
+  have h0 : (manifests (removeA c)).length ≤ 1 := by rw [(remove_clean fmt c).1]; exact Nat.zero_le 1
+  have hpos : fmt.pos (removeA c) = fmt.pos c := by
+    show Png.pos (removeA c) = Png.pos c
+    unfold Png.pos removeA; rw [strip_strip]
+  have hiff : (write o s).isSome ↔ (write b s).isSome := by
+    obtain ⟨rs, tail, hp, rfl⟩ := parsed_of_segs h
+    obtain ⟨o3, rs', hr3, hpo, he⟩ := remove_parsed hp
+    rw [hr] at hr3; injection hr3 with hr3; subst hr3
+    rw [manifests_length_segsOf] at h1
+    have hf := (eraseFirst_filter he h1).1
+    rw [write_isSome_iff hpo, write_isSome_iff hp, ← hf]
+    constructor
+    · rintro ⟨r, hr, hn⟩; exact ⟨r, (List.mem_filter.1 hr).1, hn⟩
+    · rintro ⟨r, hr, hn⟩
+      refine ⟨r, List.mem_filter.2 ⟨hr, ?_⟩, hn⟩
+      have : r.name ≠ caBX := by rw [hn]; exact fun e => caBX_ne_IHDR e.symm
+      simpa using this
+  cases hwo : write o s with
+  | none =>
+    cases hwb : write b s with
+    | none => rfl
+    | some ob => rw [hwo, hwb] at hiff; exact absurd (hiff.2 rfl) (by simp)
+  | some oo =>
+    cases hwb : write b s with
+    | none => rw [hwo, hwb] at hiff; exact absurd (hiff.1 rfl) (by simp)
+    | some ob =>
+      have e1 := write_refines hso h0 hs hwo
+      rw [write_after_remove fmt c s hpos] at e1
+      rw [e1, write_refines h h1 hs hwb]
+
+/-- **remove ∘ write on bytes** (C07 / C09): removing after embedding gives the same bytes as
+removing from the original. -/
+theorem remove_write_bytes {b s o : Bytes} {c : List Seg} (h : segs b = some c)
+    (h1 : (manifests c).length ≤ 1) (hs : s.length < 4294967296) (hw : write b s = some o) :
+    remove o = remove b := by
+  have hso := segs_write h h1 hs hw
+  have hone : (manifests (writeA fmt c s)).length ≤ 1 := by rw [write_exactly_one]; exact Nat.le_refl 1
+  rw [remove_refines hso hone, remove_refines h h1, remove_write_eq_remove]
+
+end Png
+
+/-- The precondition "at most one caBX chunk" of the PNG squares is necessary: on a file with
+two caBX chunks the handler replaces only the first one, the result still has two and
+`read_cai` reports `TooManyManifestStores`, whereas the layer-A write strips both. (Such a
+file is already rejected by `read_cai` before the write; the property's "valid asset" is read
+as "at most one manifest container", see registry assumptions.) -/
+def pngTwoCai : Bytes :=
+  Png.sig ++ ([0, 0, 0, 0] ++ Png.IHDR ++ [0, 0, 0, 0]) ++ ([0, 0, 0, 1] ++ Png.caBX ++ [7] ++ [0, 0, 0, 0])
+    ++ ([0, 0, 0, 1] ++ Png.caBX ++ [8] ++ [0, 0, 0, 0]) ++ ([0, 0, 0, 0] ++ Png.IEND ++ [0, 0, 0, 0])
+
+theorem png_two_manifests_diverge :
+    ∃ c o, Png.segs pngTwoCai = some c ∧ (manifests c).length = 2 ∧
+      Png.read pngTwoCai = some .many ∧
+      Png.write pngTwoCai [9] = some o ∧ Png.read o = some .many ∧
+      readA Png.fmt (writeA Png.fmt c [9]) = .ok [9] := by
+  cases hs : Png.segs pngTwoCai with
+  | none => exact absurd hs (by decide)
+  | some c =>
+    cases hw : Png.write pngTwoCai [9] with
+    | none => exact absurd hw (by decide)
+    | some o =>
+      refine ⟨c, o, rfl, ?_, by decide, rfl, ?_, png_read_write c [9]⟩
+      · have : (Png.segs pngTwoCai).map (fun c => (manifests c).length) = some 2 := by decide
+        rw [hs] at this; injection this
+      · have : (Png.write pngTwoCai [9]).bind Png.read = some .many := by decide
+        rw [hw] at this; exact this
 
 /-! ### non-vacuity -/
 
@@ -109,5 +318,18 @@ example : readA exFmt exC = .many := by decide
 example : readA exFmt (writeA exFmt exC [5, 6]) = .ok [5, 6] := by decide
 example : ser (writeA exFmt exC [5, 6]) = [1, 2, 7, 5, 6, 3] := by decide
 example : ser (removeA exC) = [1, 2, 3] := by decide
+
+/-- A minimal PNG (IHDR, one tEXt-like chunk, IEND, one trailing byte; the walker ignores
+CRC values): meets the hypotheses of the byte-level theorems. -/
+def exPng : Bytes :=
+  Png.sig ++ ([0, 0, 0, 0] ++ Png.IHDR ++ [0, 0, 0, 0]) ++ ([0, 0, 0, 2] ++ asc "teXt" ++ [5, 6] ++ [0, 0, 0, 0])
+    ++ ([0, 0, 0, 0] ++ Png.IEND ++ [0, 0, 0, 0]) ++ [0xEE]
+
+example : (Png.chunks exPng).map (fun ps => ((Png.firstIhdr ps).isSome,
+    (ps.filter (·.name == Png.caBX)).length)) = some (true, 0) := by decide
+example : (Png.segs exPng).map (fun c => (c.length, (manifests c).length)) = some (5, 0) := by decide
+example : (Png.write exPng [1, 2, 3]).bind Png.read = some (.ok [1, 2, 3]) := by decide
+example : ((Png.write exPng [1, 2, 3]).bind Png.remove) = some exPng := by decide
+example : Sidecar.segs [1, 2] = [⟨.manifest, "C2PA", [1, 2]⟩] := by decide
 
 end C2pa.C07
